@@ -1,8 +1,8 @@
 #!/verif/.venv/bin/python
 # Replay of a solver counterexample against the unmodified code (no shims).
-# property=C02 kernel=two label=c02:inv_clock
+# property=C02 kernel=eom label=c02:inv_eom_boundary_end
 import sys
-sys.path[:0] = ["/repo/pulser-core", "/repo/pulser-simulation", "/verif"]
+sys.path[:0] = ['/repo' + "/pulser-core", '/repo' + "/pulser-simulation", "/verif"]
 from symx.replay import replay
-sys.exit(replay(check='checks.c02', kernel='two', shape={'own': {'clock': 4, 'local': False, 'slots': [], 'mod': True, 'pj': 'derived', 'targets_a': ['q0'], 'targets_b': ['q1']}, 'other': {'clock': 1, 'local': False, 'slots': ['pulseA'], 'mod': True, 'pj': 'derived', 'targets_a': ['q0'], 'targets_b': ['q2']}, 'op': ['add_pulse', 'min-delay', 'A'], 'maxseq': False, 'nbarriers': 1},
-                assignment={'own.min_duration': 57, 'own.tr': 1, 'other.min_duration': 1, 'other.tr': 1, 'other.s0.dur': 1, 'new.dur/k': 15, 'barrier0': 2, 'buf#1.start': 0, 'buf#1.end': 0, 'buf#2.start': 0, 'buf#2.end': 0, 'buf#3.start': 0, 'buf#3.end': 0, 'buf#4.start': 0, 'buf#4.end': 0}, label='c02:inv_clock'))
+sys.exit(replay(check='checks.c02', kernel='eom', shape={'own': {'clock': 1, 'local': False, 'slots': ['pulseA', 'delay'], 'mod': True, 'pj': 'derived', 'det_off': 0.0, 'eom': {'custom_buffer': False, 'blocks': [(0, None)]}}, 'op': ['disable_eom'], 'maxseq': True, 'nbarriers': 1},
+                assignment={'max_sequence_duration': 3, 'own.min_duration': 1, 'own.tr': 1, 'own.eom_tr': 1, 'own.s0.dur': 1, 'own.s1.dur': 1, 'buf#1.start': 0, 'buf#1.end': 1, 'buf#2.start': 0, 'buf#2.end': 0}, label='c02:inv_eom_boundary_end'))
